@@ -594,6 +594,13 @@ package s3db
 //@   ensures not-discarded: imp(result == nil && hasWT(ctx) && old(has(tree(c), akeygo(key)) && visible(tree(c)[akeygo(key)]) && !rowOf(tree(c)[akeygo(key)].Value).Deleted) && assigns(c, values, col) &&
 //@       old(has(rowOf(tree(c)[akeygo(key)].Value).ColumnValues, col)) && ns(wtOf(ctx)) > old(utime(rowOf(tree(c)[akeygo(key)].Value).ColumnValues[col], tm(tree(c)[akeygo(key)].ModEpochNanos))),
 //@       tagged(rowOf(tree(c)[akeygo(key)].Value).ColumnValues[col].Value, values[colIdx(c, col)]))
+// The properties (C05: all statements of a transaction carry ONE write time; C06: a single
+// writer behaves like plain SQLite) need a statement to win over an earlier statement of the
+// same transaction, i.e. at an EQUAL time: the row merge keeps the stored value on a tie, so
+// INSERT; UPDATE in one transaction loses the UPDATE (known finding).
+//@   ensures later-statement-wins-at-equal-time: imp(result == nil && hasWT(ctx) && old(has(tree(c), akeygo(key)) && visible(tree(c)[akeygo(key)]) && !rowOf(tree(c)[akeygo(key)].Value).Deleted) && assigns(c, values, col) &&
+//@       old(has(rowOf(tree(c)[akeygo(key)].Value).ColumnValues, col)) && ns(wtOf(ctx)) == old(tree(c)[akeygo(key)].ModEpochNanos) && ns(wtOf(ctx)) == old(utime(rowOf(tree(c)[akeygo(key)].Value).ColumnValues[col], tm(tree(c)[akeygo(key)].ModEpochNanos))),
+//@       tagged(rowOf(tree(c)[akeygo(key)].Value).ColumnValues[col].Value, values[colIdx(c, col)]))
 //@   loop 1 modifies contents(new.ColumnValues)
 //@   loop 1 invariant new.ColumnValues != nil && fresh(new.ColumnValues) && !new.Deleted
 //@   loop 1 invariant forall i int :: imp(visited(i), has(values, i))
